@@ -393,8 +393,9 @@ class Interp:
         x_i, y_i = op.inputs[0], op.outputs[0]
         xs, xzp = self.scalar_q(x_i)
         ys, yzp = self.scalar_q(y_i)
-        real = fn((self.get(x_i) - xzp).astype(np.float64) * xs)
-        y = np.where(real >= 0, np.floor(real / ys + 0.5), -np.floor(-real / ys + 0.5)) + yzp
+        with np.errstate(all="ignore"):
+            real = np.nan_to_num(fn((self.get(x_i) - xzp).astype(np.float64) * xs), nan=-1e30, posinf=1e30, neginf=-1e30)
+        y = np.clip(np.where(real >= 0, np.floor(real / ys + 0.5), -np.floor(-real / ys + 0.5)) + yzp, -1e15, 1e15)
         self.put(y_i, y.astype(np.int64), approx, [x_i])
 
     def op_LOGISTIC(self, op):
@@ -405,6 +406,49 @@ class Interp:
 
     def op_HARD_SWISH(self, op):
         self.float_unary(op, lambda v: v * np.clip(v + 3.0, 0.0, 6.0) / 6.0)
+
+    def op_EXP(self, op):
+        self.float_unary(op, np.exp)
+
+    def op_LOG(self, op):
+        with np.errstate(all="ignore"):
+            self.float_unary(op, lambda v: np.log(np.maximum(v, np.finfo(np.float64).tiny)))
+
+    def op_SQRT(self, op):
+        with np.errstate(all="ignore"):
+            self.float_unary(op, lambda v: np.sqrt(np.maximum(v, 0.0)))
+
+    def op_RSQRT(self, op):
+        x_i = op.inputs[0]
+        xs, xzp = self.scalar_q(x_i)
+        if ((self.get(x_i) - xzp) <= 0).any():
+            raise Unsupported("rsqrt of a non-positive value (the reference kernel aborts)")
+        self.float_unary(op, lambda v: 1.0 / np.sqrt(v))
+
+    def op_GELU(self, op):
+        from math import erf, sqrt, pi
+        approx = bool(op.options[1].get("Approximate", False)) if op.options else False
+        if approx:
+            fn = lambda v: 0.5 * v * (1.0 + np.tanh(sqrt(2.0 / pi) * (v + 0.044715 * v ** 3)))  # noqa: E731
+        else:
+            fn = np.vectorize(lambda v: 0.5 * v * (1.0 + erf(v / sqrt(2.0))))
+        self.float_unary(op, fn)
+
+    def op_SQUARED_DIFFERENCE(self, op):
+        a_i, b_i, y_i = op.inputs[0], op.inputs[1], op.outputs[0]
+        as_, azp = self.scalar_q(a_i)
+        bs, bzp = self.scalar_q(b_i)
+        ys, yzp = self.scalar_q(y_i)
+        d = (self.get(a_i) - azp).astype(np.float64) * as_ - (self.get(b_i) - bzp).astype(np.float64) * bs
+        real = d * d
+        y = np.floor(real / ys + 0.5) + yzp
+        # integer reference: both operands rescaled with a left shift of 7 and rounded before the squaring: a few steps of error
+        self.put(y_i, y.astype(np.int64), 2, [a_i, b_i])
+
+    def op_ARG_MAX(self, op):
+        x = self.get(op.inputs[0])
+        ax = int(np.atleast_1d(self.get(op.inputs[1]))[0])
+        self.put(op.outputs[0], np.argmax(x, axis=ax).astype(np.int64), 0, [op.inputs[0]], mode="move")
 
     def op_LEAKY_RELU(self, op):
         alpha = float(np.float32(op.options[1].get("Alpha", 0.0)))
